@@ -65,4 +65,32 @@ static inline uint32_t atomic_dec(volatile uint32_t *p) {
 
 #endif
 
+#ifdef TREE_SITTER_VERIF
+// Verification-only scheduling points around the reference-count atomics and
+// before the plain reads of `ref_count`. The hook is NULL unless a test
+// harness installs a scheduler; the atomic operations themselves are untouched.
+extern void (*ts_verif_yield_hook)(int kind, const volatile void *address);
+#define TS_VERIF_YIELD(kind, address) \
+  do { if (ts_verif_yield_hook) ts_verif_yield_hook((kind), (address)); } while (0)
+
+static inline uint32_t ts_verif_atomic_inc(volatile uint32_t *p) {
+  TS_VERIF_YIELD(1, p);
+  uint32_t result = atomic_inc(p);
+  TS_VERIF_YIELD(3, p);
+  return result;
+}
+
+static inline uint32_t ts_verif_atomic_dec(volatile uint32_t *p) {
+  TS_VERIF_YIELD(2, p);
+  uint32_t result = atomic_dec(p);
+  TS_VERIF_YIELD(4, p);
+  return result;
+}
+
+#define atomic_inc ts_verif_atomic_inc
+#define atomic_dec ts_verif_atomic_dec
+#else
+#define TS_VERIF_YIELD(kind, address) ((void)0)
+#endif
+
 #endif  // TREE_SITTER_ATOMIC_H_
